@@ -1059,7 +1059,7 @@ func runC27(cfg *hx.RunCfg) (*hx.Result, error) {
 	}
 	n := cfg.N
 	if n == 0 {
-		n = 36
+		n = 28
 		if cfg.Tier == "thorough" {
 			n = 300
 		}
